@@ -181,6 +181,14 @@ func (r *Run) Violation(key, what string, replay interface{}) {
 	r.violations = append(r.violations, violation{key, what, path})
 }
 
+// IsKnown reports whether a class key is a recorded known finding of this property.
+func (r *Run) IsKnown(key string) bool {
+	r.mu.Lock()
+	defer r.mu.Unlock()
+	_, ok := r.known[key]
+	return ok
+}
+
 // NumViolations returns the number of unlisted violation classes so far.
 func (r *Run) NumViolations() int {
 	r.mu.Lock()
